@@ -2,6 +2,7 @@
 //   mean_i loss(t_i, W x_i + b) + l1 * mean|W| + (l2/2) * mean(W^2)
 // over the (scaled, missing -> 0) flattened samples, for symbolic data, parameters and regularisers; the value does not depend
 // on the batch size or on caching.
+// (sub=2: the iterator covers a strict subset of the dataset's samples)
 // config: f=<feature kinds, last 'r' or 's' is the target>;n=<samples>;miss=<pattern>;loss=<mse|mae|m-hinge|m-squared-hinge|s-hinge>;
 //         sc=<scaling 0..3>;batch=<b>;cache=<0|1>;reg=<0 none|1 l1|2 l2|3 both>
 #include "hdata.h"
@@ -50,7 +51,15 @@ extern "C" void sym_body()
     // threads=<K>;sched=<0 rr|1 last|2 reversed|3 arbitrary>: sequentialised multi-worker pool (any assignment of chunks to workers)
     dataset_t ds(src, setup_workers(cfgi("threads", 1), cfgi("sched", 0), cfgi("arb", -1)));
     add_identity_generators(ds);
-    const auto samples = all_samples(n);
+    auto samples = all_samples(n);
+    if (cfgi("sub", 0) == 2 && n > 2)
+    {
+        // a STRICT subset (fewer samples than the dataset holds): the means and the statistics are over the iterator's samples
+        samples.resize(2);
+        samples(0) = 0;
+        samples(1) = n - 1;
+    }
+    const auto m = samples.size();
 
     auto loss = loss_t::all().get(lid);
     SYM_CHECK(static_cast<bool>(loss), "loss id registered");
@@ -84,7 +93,7 @@ extern "C" void sym_body()
 
     double              value = 0.0;
     std::vector<double> gW(static_cast<size_t>(isize * tsize), 0.0), gB(static_cast<size_t>(tsize), 0.0);
-    for (tensor_size_t s = 0; s < n; ++s)
+    for (tensor_size_t s = 0; s < m; ++s)
     {
         std::vector<double> t, o;
         for (tensor_size_t k = 0; k < tsize; ++k)
@@ -102,7 +111,7 @@ extern "C" void sym_body()
             for (tensor_size_t c = 0; c < isize; ++c) gW[static_cast<size_t>(k * isize + c)] = gW[static_cast<size_t>(k * isize + c)] + g * flat(s, c);
         }
     }
-    const double dn = static_cast<double>(n), dw = static_cast<double>(isize * tsize);
+    const double dn = static_cast<double>(m), dw = static_cast<double>(isize * tsize);
     value           = value / dn;
     double l1sum = 0.0, l2sum = 0.0;
     for (tensor_size_t k = 0; k < tsize; ++k)
